@@ -33,6 +33,7 @@ import (
 
 type SeqEvent struct {
 	K       string `json:"k"` // op | resume | applier | policy | env
+	T       int    `json:"t,omitempty"` // client thread index for op / resume
 	Op      *Op    `json:"op,omitempty"`
 	Pick    int    `json:"pick,omitempty"`
 	Choices []int  `json:"choices,omitempty"` // data choices met while the event ran (map orders)
@@ -44,6 +45,11 @@ func (e SeqEvent) String() string {
 	switch e.K {
 	case "op", "env":
 		s = e.Op.String()
+		if e.T > 0 {
+			s = fmt.Sprintf("T%d:%s", e.T, s)
+		}
+	case "resume":
+		s = fmt.Sprintf("resume-T%d", e.T)
 	case "applier", "policy":
 		s = e.K + ":" + e.Desc
 	}
@@ -73,7 +79,7 @@ type SDump struct {
 	Metrics     []uint64
 	ClockNs     int64
 	TickPending int
-	ClientState string // idle | blocked | finished
+	ClientState string // per client: i idle | b blocked
 	Daemons     int    // live daemon threads
 }
 
@@ -85,6 +91,12 @@ type seqCache interface {
 	Resident(key int) bool
 	PendingNew(key int) bool
 	BufShadow() []any
+	PolicyCosts() []ristretto.VerifCost
+}
+
+func (t *typedCache[K]) PolicyCosts() []ristretto.VerifCost {
+	c, _, _ := ristretto.VerifPolicy(t.c)
+	return c
 }
 
 func (t *typedCache[K]) BufShadow() []any {
@@ -147,6 +159,8 @@ type SeqRun struct {
 	Detail     string
 	C          seqCache
 	Probe      map[string]int64 // results of the property's probe (run after the last event)
+	IterAll    []int64          // probe: values visited by a full IterValues
+	IterStop   []int            // probe: visits seen by a callback that stops at visit i+1
 }
 
 type zeroChooser struct{}
@@ -167,9 +181,13 @@ type SeqSpec struct {
 	Probe func(c seqCache, r *SeqRun)
 	// Terminal: do not expand after this event (e.g. Close)
 	Terminal func(r *SeqRun) bool
-	// NoDaemonEvents: let the applier/policy events be offered (default true); DrainAfterOp makes
-	// every client op be followed by a full drain (used for frequency-only set-up)
 	MaxDepth int
+	// Clients is the number of client threads (default 1); AlphabetT gives the ops of client t>0.
+	Clients   int
+	AlphabetT func(r *SeqRun, t int) []Op
+	// LogEstimates makes the driver log the TinyLFU estimates of every accounted key and of the
+	// head item's key before each applier step that consumes a new item (C09).
+	LogEstimates bool
 }
 
 func daemonTids() (policy, applier int) {
@@ -190,7 +208,11 @@ func daemonTids() (policy, applier int) {
 // runHistory executes hist on a fresh cache under the sequential driver.
 func runHistory(spec *SeqSpec, hist []SeqEvent) *SeqRun {
 	run := &SeqRun{Hist: hist, Probe: map[string]int64{}}
-	var mailbox Op
+	nclients := spec.Clients
+	if nclients < 1 {
+		nclients = 1
+	}
+	mailbox := make([]Op, nclients)
 	stop := false
 	body := func() {
 		vtime.ResetClock()
@@ -212,27 +234,32 @@ func runHistory(spec *SeqSpec, hist []SeqEvent) *SeqRun {
 		}
 		c := newCache(spec.Cfg, nil).(seqCache)
 		run.C = c
-		client := vsched.Spawn("client", func() {
-			for {
-				vsched.Yield()
-				if stop {
-					return
+		clients := make([]int, nclients)
+		for ci := 0; ci < nclients; ci++ {
+			ci := ci
+			clients[ci] = vsched.Spawn(fmt.Sprintf("client%d", ci), func() {
+				for {
+					vsched.Yield()
+					if stop {
+						return
+					}
+					runOp(c, mailbox[ci])
 				}
-				runOp(c, mailbox)
-			}
-		})
-		clientBlocked := false
+			})
+		}
+		clientBlocked := make([]bool, nclients)
 		snapshot := func() *SDump {
 			d := c.SDump()
 			d.ClockNs = vtime.Now().Sub(vtime.Base).Nanoseconds()
 			for _, t := range vtime.Tickers() {
 				d.TickPending += t.Pending()
 			}
-			switch {
-			case clientBlocked:
-				d.ClientState = "blocked"
-			default:
-				d.ClientState = "idle"
+			for _, b := range clientBlocked {
+				if b {
+					d.ClientState += "b"
+				} else {
+					d.ClientState += "i"
+				}
 			}
 			for _, t := range vsched.Threads() {
 				if t.Daemon && !t.Finished {
@@ -250,8 +277,8 @@ func runHistory(spec *SeqSpec, hist []SeqEvent) *SeqRun {
 			tid, pick := -1, 0
 			switch e.K {
 			case "op":
-				mailbox = *e.Op
-				tid = client
+				mailbox[e.T] = *e.Op
+				tid = clients[e.T]
 				if k := e.Op.K; k == "set" || k == "setttl" || k == "del" || k == "get" {
 					// antecedents of the call, read white-box while every thread is parked
 					var fl int64
@@ -265,7 +292,7 @@ func runHistory(spec *SeqSpec, hist []SeqEvent) *SeqRun {
 					vsched.Log(evPre, int64(e.Op.Key), fl, maxc-used)
 				}
 			case "resume":
-				tid = client
+				tid = clients[e.T]
 			case "applier":
 				_, tid = daemonTids()
 				pick = e.Pick
@@ -273,6 +300,34 @@ func runHistory(spec *SeqSpec, hist []SeqEvent) *SeqRun {
 				tid, _ = daemonTids()
 				pick = e.Pick
 			case "env":
+				if e.Op.K == "sweep" {
+					// compound event: deliver a tick and let the applier process it at once
+					_, app := daemonTids()
+					runOp(c, Op{K: "tick"})
+					pending := 0
+					for _, t := range vtime.Tickers() {
+						pending += t.Pending()
+					}
+					if app >= 0 && pending > 0 {
+						// the applier's own ready cases come in select order (write buffer, ticker),
+						// rendezvous partners after them: the tick is its last own case
+						pickT := -1
+						for i, d := range vsched.Query(app) {
+							if d.Partner < 0 {
+								pickT = i
+							}
+						}
+						if pickT >= 0 {
+							st := vsched.Drive(app, pickT)
+							for st == vsched.DriveChoice {
+								st = vsched.Drive(app, 0)
+							}
+							vsched.Log(evSweep, 0, 0, 0)
+						}
+					}
+					run.Status = append(run.Status, "env")
+					continue
+				}
 				runOp(c, *e.Op)
 				run.Status = append(run.Status, "env")
 				continue
@@ -281,8 +336,22 @@ func runHistory(spec *SeqSpec, hist []SeqEvent) *SeqRun {
 				panic("seq: event " + e.String() + " has no thread")
 			}
 			var headBefore []any
+			tickBefore := 0
+			var costsBefore []ristretto.VerifCost
 			if e.K == "applier" {
+				costsBefore = c.PolicyCosts()
 				headBefore = c.BufShadow()
+				for _, t := range vtime.Tickers() {
+					tickBefore += t.Pending()
+				}
+				if spec.LogEstimates && len(headBefore) > 0 {
+					if it, ok := ristretto.VerifItem[int64](headBefore[0]); ok && it.Flag == 0 && !it.IsWait {
+						vsched.Log(evEst, int64(it.Key), c.Estimate(it.Key), 1)
+						for _, kc := range c.Dump().Costs {
+							vsched.Log(evEst, int64(kc.Key), c.Estimate(kc.Key), 0)
+						}
+					}
+				}
 			}
 			st = vsched.Drive(tid, pick)
 			ci := 0
@@ -310,8 +379,29 @@ func runHistory(spec *SeqSpec, hist []SeqEvent) *SeqRun {
 					vsched.Log(evApplied, int64(it.Key), v, fl)
 				}
 			}
-			if tid == client {
-				clientBlocked = st == vsched.DriveBlocked
+			if e.K == "applier" {
+				// accounting changes made by this step
+				before := map[uint64]int64{}
+				for _, kc := range costsBefore {
+					before[kc.Key] = kc.Cost
+				}
+				for _, kc := range c.PolicyCosts() {
+					if old, had := before[kc.Key]; !had {
+						vsched.Log(evCost, int64(kc.Key), -1, kc.Cost)
+					} else if old != kc.Cost {
+						vsched.Log(evCost, int64(kc.Key), old, kc.Cost)
+					}
+				}
+				tickAfter := 0
+				for _, t := range vtime.Tickers() {
+					tickAfter += t.Pending()
+				}
+				if tickAfter < tickBefore {
+					vsched.Log(evSweep, 0, 0, 0) // the applier consumed a tick: one expiry sweep ran
+				}
+			}
+			if e.K == "op" || e.K == "resume" {
+				clientBlocked[e.T] = st == vsched.DriveBlocked
 			}
 		}
 		run.Post = snapshot()
@@ -320,9 +410,9 @@ func runHistory(spec *SeqSpec, hist []SeqEvent) *SeqRun {
 		}
 		// enabled daemon / resume events
 		pol, app := daemonTids()
-		if clientBlocked {
-			if len(vsched.Query(client)) > 0 {
-				run.Enabled = append(run.Enabled, SeqEvent{K: "resume"})
+		for ci, b := range clientBlocked {
+			if b && len(vsched.Query(clients[ci])) > 0 {
+				run.Enabled = append(run.Enabled, SeqEvent{K: "resume", T: ci})
 			}
 		}
 		if app >= 0 {
@@ -449,8 +539,37 @@ func seqSearch(p *Prop, j *Job, spec *SeqSpec) *JobResult {
 	frontier := []node{{nil}}
 	hkey := func(h []SeqEvent) string { b, _ := json.Marshal(h); return string(b) }
 	enabledOf := map[string][]SeqEvent{hkey(nil): root.Enabled}
-	alphaOf := map[string][]Op{hkey(nil): spec.Alphabet(root)}
-	clientIdle := map[string]bool{hkey(nil): true}
+	// candidate client / env events after a run: env ops always, client ops for idle clients
+	candidates := func(r *SeqRun) []SeqEvent {
+		var out []SeqEvent
+		n := spec.Clients
+		if n < 1 {
+			n = 1
+		}
+		for t := 0; t < n; t++ {
+			var ops []Op
+			if t == 0 {
+				ops = spec.Alphabet(r)
+			} else if spec.AlphabetT != nil {
+				ops = spec.AlphabetT(r, t)
+			}
+			idle := t >= len(r.Post.ClientState) || r.Post.ClientState[t] == 'i'
+			for _, o := range ops {
+				o := o
+				if o.K == "advance" || o.K == "tick" || o.K == "sweep" {
+					if t == 0 {
+						out = append(out, SeqEvent{K: "env", Op: &o})
+					}
+					continue
+				}
+				if idle {
+					out = append(out, SeqEvent{K: "op", T: t, Op: &o})
+				}
+			}
+		}
+		return out
+	}
+	alphaOf := map[string][]SeqEvent{hkey(nil): candidates(root)}
 	seenViol := map[string]bool{}
 	depth := 0
 	res.States = 1
@@ -466,27 +585,12 @@ func seqSearch(p *Prop, j *Job, spec *SeqSpec) *JobResult {
 			}
 			hk := hkey(nd.hist)
 			var cands []SeqEvent
-			if clientIdle[hk] {
-				for _, o := range alphaOf[hk] {
-					o := o
-					k := "op"
-					if o.K == "advance" || o.K == "tick" {
-						k = "env"
-					}
-					cands = append(cands, SeqEvent{K: k, Op: &o})
-				}
-			} else {
-				for _, o := range alphaOf[hk] {
-					if o.K == "advance" || o.K == "tick" {
-						o := o
-						cands = append(cands, SeqEvent{K: "env", Op: &o})
-					}
-				}
+			for _, c := range alphaOf[hk] {
+				cands = append(cands, c)
 			}
 			cands = append(cands, enabledOf[hk]...)
 			delete(enabledOf, hk)
 			delete(alphaOf, hk)
-			delete(clientIdle, hk)
 			for ci := 0; ci < len(cands); ci++ {
 				e := cands[ci]
 				h := append(append([]SeqEvent(nil), nd.hist...), e)
@@ -556,8 +660,7 @@ func seqSearch(p *Prop, j *Job, spec *SeqSpec) *JobResult {
 				}
 				hk2 := hkey(h)
 				enabledOf[hk2] = run.Enabled
-				alphaOf[hk2] = spec.Alphabet(run)
-				clientIdle[hk2] = run.Post.ClientState == "idle"
+				alphaOf[hk2] = candidates(run)
 				next = append(next, node{h})
 			}
 		}
